@@ -23,6 +23,15 @@ Proof. reflexivity. Qed.
 (* the extension-option switch of NewAnteHandler: what it switches on, case -> handler, default, no-option branch *)
 Lemma agree_switch_on : gen_switch_on = ref_switch_on.
 Proof. reflexivity. Qed.
+(* [ref_switch_on] is the model's name for "the type URL of the first extension option"; in terms of the
+   closure's parameters that value, and the conditions under which the dispatch on it is reached, are: *)
+Lemma agree_switch_subject :
+  gen_switch_subject = "tx.(authante.HasExtensionOptionsTx)#0.GetExtensionOptions()[0].GetTypeUrl()".
+Proof. reflexivity. Qed.
+Lemma agree_switch_guard : gen_switch_guard =
+  [ "tx.(authante.HasExtensionOptionsTx)#1";
+    "len(tx.(authante.HasExtensionOptionsTx)#0.GetExtensionOptions()) > 0" ].
+Proof. reflexivity. Qed.
 Lemma agree_switch : gen_switch = ref_switch.
 Proof. reflexivity. Qed.
 Lemma agree_switch_default : gen_switch_default = ref_switch_default.
